@@ -124,6 +124,12 @@ pub assume_specification<P, Q> [std::fs::rename] (from: P, to: Q) -> (r: std::re
     where P: std::convert::AsRef<std::path::Path>, Q: std::convert::AsRef<std::path::Path>,
     requires is_status_tag(path_of::<Q>(to)) ==> fully_written(path_of::<P>(from)) && file_name(path_of::<P>(from)) == "status.tag.tmp"@
                 && parent_dir(path_of::<P>(from)) == parent_dir(path_of::<Q>(to));  // @C16.fs_rename.status_tag_replaced_only_by_the_completely_written_temp_file
+// std docs: fs::copy "Copies the contents of one file to another ... This function will overwrite the contents of to" -- in place
+// (open with truncate, then write): NOT atomic, same obligation as fs::write
+#[verifier::allow(undeclared_external_trait)]
+pub assume_specification<P, Q> [std::fs::copy] (from: P, to: Q) -> (r: std::result::Result<u64, std::io::Error>)
+    where P: std::convert::AsRef<std::path::Path>, Q: std::convert::AsRef<std::path::Path>,
+    requires !is_status_tag(path_of::<Q>(to));  // @C16.fs_copy.status_tag_is_never_written_in_place
 // PathBuf derefs to the Path with the same text
 pub assume_specification [<std::path::PathBuf as std::ops::Deref>::deref] (p: &std::path::PathBuf) -> (r: &std::path::Path)
     ensures path_of::<&std::path::Path>(r) == path_of::<std::path::PathBuf>(*p);
